@@ -177,6 +177,7 @@ func checkC01(c *Ctx) {
 	checkC01Positions(c)
 	checkC01LimitParity(c)
 	checkC01StrayAfterLoop(c)
+	checkC01LimitLandsOn(c)
 
 	c.Set("exhaustive", true)
 	c.Set("bounds", map[string]any{"MaxDepth": maxDepth})
